@@ -23,4 +23,5 @@ void wb_mp_free(wb_mp *m, int idx, void *elem);
 void wb_mp_local_destroy(wb_mp *m, int idx);
 void wb_mp_destroy(wb_mp *m);
 size_t wb_mp_header_bytes(void);
+void wb_local_pool_access(const void *pool);
 #endif
